@@ -17,11 +17,18 @@ structure PosCfg where
   trigDelay : Nat := 0
   deriving Repr, DecidableEq, Inhabited
 
+/-- One stored object.  `seq` (position in the put log) is ghost: the code never looks at it. -/
+structure Entry where
+  item : Item
+  ptime : Nat        -- item.put_time (filter store)
+  seq : Nat          -- ghost
+  deriving Repr, DecidableEq, Inhabited
+
 structure PosStore where
   cfg : PosCfg
   now : Nat := 0
   nextTid : Nat := 0
-  items : List (Item × Nat) := []     -- (item, put_time); first resEv.length entries are reserved
+  items : List Entry := []            -- first resEv.length entries are the reserved ones
   putQ : List Tok := []               -- reserve_put_queue
   putRes : List Tok := []             -- reservations_put
   getQ : List Tok := []               -- reserve_get_queue
@@ -36,19 +43,21 @@ structure PosStore where
   fired : List Nat := []              -- tokens succeeded during the current step, in order
   putLog : List Item := []            -- ghost: items accepted by put, in order
   gotLog : List Item := []            -- ghost: items returned by get, in order
+  area : Nat := 0                     -- ghost: ∫ len(items) dt since t = 0
+  everRes : List Nat := []            -- ghost: seq of every entry that was ever bound to a retrieval
   deriving Repr, Inhabited
 
 namespace PosStore
 
 def init (cfg : PosCfg) : PosStore := { cfg := cfg }
 
-def Filt.eval (f : Filt) (now trigDelay : Nat) (x : Item × Nat) : Bool :=
+def Filt.eval (f : Filt) (now trigDelay : Nat) (x : Entry) : Bool :=
   match f with
-  | .dflt => decide (x.2 + trigDelay ≤ now)
+  | .dflt => decide (x.ptime + trigDelay ≤ now)
   | .always => true
   | .never => false
-  | .kindEq k => x.1.kind == k
-  | .idEven => x.1.id % 2 == 0
+  | .kindEq k => x.item.kind == k
+  | .idEven => x.item.id % 2 == 0
 
 /-- `_do_reserve_put` admission test. -/
 def admits (s : PosStore) : Bool :=
@@ -78,7 +87,8 @@ def trigGet (s : PosStore) : PosStore :=
   | t :: q =>
     if s.serves t then
       { s with getQ := q, getRes := s.getRes ++ [t], resEv := s.resEv ++ [t],
-               fired := s.fired ++ [t.id] }
+               fired := s.fired ++ [t.id],
+               everRes := s.everRes ++ (s.items.drop s.resEv.length).head?.toList.map (·.seq) }
     else s
 
 /-- `_update_time_averaged_level` (absent in the filter store). -/
@@ -117,13 +127,25 @@ def reserveGet (s : PosStore) (proc : Nat) (prio : Int) (f : Filt) : PosStore ×
   let s1 := { s with nextTid := s.nextTid + 1, getQ := stableSort (s.getQ ++ [t]) }
   (s1.trigGet, .tok t.id)
 
-def restamp (l : List (Item × Nat)) (id now : Nat) : List (Item × Nat) :=
-  l.map fun p => if p.1.id = id then (p.1, now) else p
+def restamp (l : List Entry) (id now : Nat) : List Entry :=
+  l.map fun e => if e.item.id = id then { e with ptime := now } else e
 
 def capRoom (s : PosStore) : Bool :=
   match s.cfg.cap with
   | none => true
   | some c => decide (s.items.length < c)
+
+/-- filter store: `env.process(self._add_trigger_event())`, executed before the capacity test. -/
+def addTimer (s : PosStore) : PosStore :=
+  if s.cfg.filter then { s with timers := s.timers ++ [s.now + s.cfg.trigDelay] } else s
+
+def dropPutRes (s : PosStore) (t : Tok) : PosStore := { s with putRes := s.putRes.erase t }
+
+/-- `self.items.append(item)`; `item.put_time = now` is an attribute of the object, so an object
+    stored twice is re-stamped (filter store; harmless elsewhere). -/
+def addItem (s : PosStore) (x : Item) : PosStore :=
+  { s with items := restamp s.items x.id s.now ++ [{ item := x, ptime := s.now, seq := s.putLog.length }],
+           putLog := s.putLog ++ [x] }
 
 /-- `put` → `_trigger_put` → `_do_put`. -/
 def put (s : PosStore) (proc tid : Nat) (x : Item) : PosStore × Res :=
@@ -131,15 +153,15 @@ def put (s : PosStore) (proc tid : Nat) (x : Item) : PosStore × Res :=
   match s.putRes.find? (fun t => t.id == tid && t.proc == proc) with
   | none => (s, .err .runtime)
   | some t =>
-    let s1 := { s with putRes := s.putRes.erase t }
-    -- filter store: env.process(self._add_trigger_event()) before the capacity test
-    let s2 := if s.cfg.filter then { s1 with timers := s1.timers ++ [s1.now + s1.cfg.trigDelay] } else s1
-    if s2.capRoom then
-      -- `item.put_time = now` is an attribute of the object: an object stored twice is re-stamped
-      let s3 := { s2 with items := restamp s2.items x.id s2.now ++ [(x, s2.now)],
-                          putLog := s2.putLog ++ [x] }
-      ((s3.trigGet).updLevel, .ok)
-    else (s2, .err .runtime)      -- second capacity test failed: reservation already consumed
+    if ((s.dropPutRes t).addTimer).capRoom then
+      (((((s.dropPutRes t).addTimer).addItem x).trigGet).updLevel, .ok)
+    else ((s.dropPutRes t).addTimer, .err .runtime)   -- second capacity test failed: reservation consumed
+
+def dropGetRes (s : PosStore) (t : Tok) : PosStore := { s with getRes := s.getRes.erase t }
+
+/-- remove the item bound to slot `i` and hand it out. -/
+def takeItem (s : PosStore) (i : Nat) (x : Item) : PosStore :=
+  { s with items := s.items.eraseIdx i, resEv := s.resEv.eraseIdx i, gotLog := s.gotLog ++ [x] }
 
 /-- `get` → `_trigger_get` → `_do_get`. -/
 def get (s : PosStore) (proc tid : Nat) : PosStore × Res :=
@@ -147,23 +169,24 @@ def get (s : PosStore) (proc tid : Nat) : PosStore × Res :=
   match s.getRes.find? (fun t => t.id == tid && t.proc == proc) with
   | none => (s, .err .runtime)
   | some t =>
-    let i := s.resEv.idxOf t
-    if i ≥ s.resEv.length then (s, .err .value) else          -- list.index raises ValueError
-    let s1 := { s with getRes := s.getRes.erase t }
-    match s1.items[i]? with
-    | none => (s1, .err .index)                                   -- items.pop(i) raises IndexError
-    | some (x, _) =>
-      let s2 := { s1 with items := s1.items.eraseIdx i, resEv := s1.resEv.eraseIdx i,
-                          gotLog := s1.gotLog ++ [x] }
-      ((s2.trigPut).updLevel, .item x)
+    if s.resEv.idxOf t ≥ s.resEv.length then (s, .err .value) else        -- list.index → ValueError
+    match s.items[s.resEv.idxOf t]? with
+    | none => (s.dropGetRes t, .err .index)                                 -- items.pop(i) → IndexError
+    | some e =>
+      ((((s.dropGetRes t).takeItem (s.resEv.idxOf t) e.item).trigPut).updLevel, .item e.item)
 
 def cancelPut (s : PosStore) (tid : Nat) : PosStore × Res :=
   match findTok s.putQ tid with
   | some t => (({ s with putQ := s.putQ.erase t }).trigPut, .ok)
   | none =>
     match findTok s.putRes tid with
-    | some t => (({ s with putRes := s.putRes.erase t }).trigPut, .ok)
+    | some t => ((s.dropPutRes t).trigPut, .ok)
     | none => (s, .err .runtime)
+
+/-- release slot `i`: its item moves to the head of the unreserved part. -/
+def releaseItem (s : PosStore) (i : Nat) (it : Entry) : PosStore :=
+  { s with items := pyInsert (s.items.eraseIdx i) (s.resEv.length - 1) it,
+           resEv := s.resEv.eraseIdx i }
 
 def cancelGet (s : PosStore) (tid : Nat) : PosStore × Res :=
   match findTok s.getQ tid with
@@ -171,28 +194,27 @@ def cancelGet (s : PosStore) (tid : Nat) : PosStore × Res :=
   | none =>
     match findTok s.getRes tid with
     | some t =>
-      let s1 := { s with getRes := s.getRes.erase t }
-      let i := s1.resEv.idxOf t
-      if i ≥ s1.resEv.length then (s1, .err .value) else
-      match s1.items[i]? with
-      | none => (s1, .err .index)
-      | some it =>
-        let s2 := { s1 with items := pyInsert (s1.items.eraseIdx i) (s1.resEv.length - 1) it,
-                            resEv := s1.resEv.eraseIdx i }
-        (s2.trigGet, .ok)
+      if s.resEv.idxOf t ≥ s.resEv.length then (s.dropGetRes t, .err .value) else
+      match s.items[s.resEv.idxOf t]? with
+      | none => (s.dropGetRes t, .err .index)
+      | some it => (((s.dropGetRes t).releaseItem (s.resEv.idxOf t) it).trigGet, .ok)
     | none => (s, .err .runtime)
+
+/-- The clock moves to `d`; the ghost occupancy integral follows. -/
+def setNow (s : PosStore) (d : Nat) : PosStore :=
+  { s with now := d, area := s.area + s.items.length * (d - s.now) }
 
 /-- Fire the given trigger events (each is one `_trigger_reserve_get` call at its due time). -/
 def fireAll : List Nat → PosStore → PosStore
   | [], s => s
-  | d :: ds, s => fireAll ds ({ s with now := d }).trigGet
+  | d :: ds, s => fireAll ds (s.setNow d).trigGet
 
 def adv (s : PosStore) (dt : Nat) : PosStore :=
   if dt = 0 then s else
   let bound := s.now + dt
   let due := s.timers.filter (· < bound)
   let s1 := fireAll due { s with timers := s.timers.filter (fun d => !(d < bound)) }
-  { s1 with now := bound }
+  s1.setNow bound
 
 def settle (s : PosStore) : PosStore :=
   let due := s.timers.filter (· ≤ s.now)
